@@ -26,6 +26,21 @@ Theorem C12_history :
 Proof. exact history_independent. Qed.
 Print Assumptions C12_history.
 
+(* ... and the hypothesis of C12_history is discharged for the entry points themselves: any sequence of
+   calls of the REGENERATED entry points (any names, order, length; per call any oracle of raising
+   validations, raising work statements and early returns) sharing one tokenizer flag yields, call by
+   call, the exit status of the call made in isolation, every call starts from the flag the history
+   started from, and the flag after the history is that flag *)
+From SSJ Require Import SkeletonHistory.
+Theorem C12_history_of_entry_points :
+  forall cs : list ep_call, Forall is_entry_point cs ->
+  forall f, run_seq status (map call_of cs) f = (map (fun c => fst (call_of c f)) cs, f)
+            /\ entry_flags cs f = map (fun _ => f) cs.
+Proof.
+  intros cs H f. split; [exact (entry_point_history cs H f) | exact (entry_point_history_entry_flags cs H f)].
+Qed.
+Print Assumptions C12_history_of_entry_points.
+
 (* the only in-place operations whose target is a parameter are the flag flip covered above
    and the converters' documented inplace mode (syntactic effect summary of every entry point) *)
 Theorem C12_no_param_mutation :
